@@ -183,5 +183,18 @@ func (o Op) String() string {
 
 var yieldChoices = []uint32{0, 2, 3, 5, 9, 33}
 
-func peerAddr(i int) string { return fmt.Sprintf("10.0.0.%d", i+2) }
-func peerRID(i int) string  { return fmt.Sprintf("192.168.0.%d", i+2) }
+// peerAddr / peerRID: last octets with one, two and three digits, so that an ordering by text
+// differs from the numeric one (decision-process tie-breaks).
+func peerAddr(i int) string {
+	if i >= 0 && i < 8 {
+		return fmt.Sprintf("10.0.0.%d", []int{2, 3, 4, 5, 10, 9, 100, 11}[i])
+	}
+	return fmt.Sprintf("10.0.0.%d", i+2)
+}
+
+func peerRID(i int) string {
+	if i >= 0 && i < 8 {
+		return fmt.Sprintf("192.168.0.%d", []int{9, 10, 100, 2, 30, 4, 5, 6}[i])
+	}
+	return fmt.Sprintf("192.168.0.%d", i+2)
+}
